@@ -7,7 +7,7 @@
     origin placement, sub-image views with non-zero (also negative) Rect.Min and larger
     stride, extra stride padding (also not a multiple of 4), trailing bytes. *)
 From Coq Require Import List ZArith Bool.
-From Webp Require Import Base.Res Place.PlaceModel Place.PlaceProof Place.PlaceEdge Place.PlaceFactor.
+From Webp Require Import Base.Res Place.PlaceModel Place.PlaceProof Place.PlaceEdge Place.PlaceFactor Place.PlaceSites.
 Import ListNotations.
 Open Scope Z_scope.
 
@@ -159,3 +159,29 @@ Print Assumptions C19_encode_ignores_bytes_outside_bounds.
 Theorem C19_import_sites_match_model : WebpGen.ImgUse.img_uses = doc_img_uses.
 Proof. exact import_sites_match_model. Qed.
 Print Assumptions C19_import_sites_match_model.
+
+(** "The caller's image is never modified", as a regenerated fact: in the import functions no
+    element of the concrete image's Pix (or of a variable assigned from it) is assigned to,
+    incremented, or used as the destination of copy; Pix is never passed on (except to len) and
+    the concrete image is only passed to validNRGBA / validRGBA and read through
+    Pix / Stride / Rect / Bounds / Opaque / PixOffset (the translator REFUSES anything else). *)
+Theorem C19_source_never_writes_callers_buffer : WebpGen.ImgUse.pix_stores = [].
+Proof. exact (proj2 (proj2 (proj2 pix_sites_match_model_holds))). Qed.
+Print Assumptions C19_source_never_writes_callers_buffer.
+
+(** The index expressions of every direct Pix read, the slice read of the clean-up copy and all
+    assignments feeding them are exactly the ones PlaceModel.v transcribes (frozen in
+    Place/PlaceSites.v). *)
+Theorem C19_pix_sites_match_model : pix_sites_match_model.
+Proof. exact pix_sites_match_model_holds. Qed.
+Print Assumptions C19_pix_sites_match_model.
+
+(** "Nothing outside the bounds is read": for every valid placement (any Pix, Stride, Rect) the
+    offset of byte c of logical pixel (x, y) - the only offsets the modelled fast paths read, by
+    the fast = generic theorems above - lies inside the buffer, inside row y and inside the
+    columns of the bounds. *)
+Theorem C19_in_bounds_offsets_in_range : forall pl, wf pl -> validb pl = true ->
+  forall x y c, 0 <= x < pw pl -> 0 <= y < ph pl -> 0 <= c < 4 ->
+  0 <= off pl x y c < plen pl /\ y * pStride pl <= off pl x y c < y * pStride pl + pw pl * 4.
+Proof. exact in_bounds_offsets_in_range. Qed.
+Print Assumptions C19_in_bounds_offsets_in_range.
